@@ -310,17 +310,30 @@ func (l *Linter) lintSwitchStatement(stmt *ast.SwitchStatement, ctx *context.Con
 	}
 
 	for _, c := range stmt.Cases {
-		for _, s := range c.Statements {
-			switch s.(type) {
-			case *ast.BreakStatement, *ast.FallthroughStatement:
-				break // parser already made sure break/fallthrough is at the end.
-			default:
-				l.lint(s, ctx)
-			}
-		}
+		l.lintCaseStatement(c, ctx)
 	}
 
 	return types.NeverType
+}
+
+func (l *Linter) lintCaseStatement(c *ast.CaseStatement, ctx *context.Context) {
+	// The case clause and each statement inside may have ignoring comments so we do setup and teardown
+	l.ignore.SetupStatement(c.GetMeta())
+	defer l.ignore.TeardownStatement(c.GetMeta())
+
+	for _, s := range c.Statements {
+		func(v ast.Statement) {
+			l.ignore.SetupStatement(v.GetMeta())
+			defer l.ignore.TeardownStatement(v.GetMeta())
+
+			switch v.(type) {
+			case *ast.BreakStatement, *ast.FallthroughStatement:
+				break // parser already made sure break/fallthrough is at the end.
+			default:
+				l.lint(v, ctx)
+			}
+		}(s)
+	}
 }
 
 func (l *Linter) lintRestartStatement(stmt *ast.RestartStatement, ctx *context.Context) types.Type {
